@@ -65,7 +65,8 @@ def run(sc, tier, seed):
     R.add_model(V.model_check(sc, MOD, "UDFFramingMC.tla", "UDFFraming_%s.cfg" % tier, workers=8, timeout=1500))
     # message level, well-behaved peer: echo identity, wire identity, snapshot/restore, stop drains, no deadlock under
     # 1-slot pipes with keepalive and requests competing with data
-    cfgs = ["UDFProto_quick.cfg", "UDFProto_bad_quick.cfg", "UDFProto_faults_quick.cfg", "UDFProto_abort_quick.cfg", "UDFProto_abortcall_quick.cfg"]
+    cfgs = ["UDFProto_quick.cfg", "UDFProto_bad_quick.cfg", "UDFProto_stray_quick.cfg", "UDFProto_faults_quick.cfg",
+            "UDFProto_abort_quick.cfg", "UDFProto_abortcall_quick.cfg"]
     if thorough:
         cfgs += ["UDFProto_thorough.cfg", "UDFProto_batches_thorough.cfg", "UDFProto_faults_thorough.cfg",
                  "UDFProto_abort_thorough.cfg", "UDFProto_abortoa_thorough.cfg"]
@@ -95,7 +96,13 @@ def run(sc, tier, seed):
         try:
             out, meta = V.run_driver(sc, drv, tier, seed, timeout=2400)
             R.add_meta(meta)
-            validate(sc, R, meta["trace_files"], module, cfg, what, parts)
+            # the c19 driver also records the complete agent -> server byte stream of every session (wire.ndjson):
+            # that one is validated at the byte level (whole frames, one writer)
+            wire = [f for f in meta["trace_files"] if os.path.basename(f) == "wire.ndjson"]
+            validate(sc, R, [f for f in meta["trace_files"] if f not in wire], module, cfg, what, parts)
+            if wire:
+                validate(sc, R, wire, "UDFFramingTrace.tla", "UDFFramingTrace.cfg",
+                         "the byte stream the agent wrote during a session is not a sequence of whole frames (or not as many as responses were handed to its writer)", 2)
         except V.Broken as e:
             # a stage that cannot run after an earlier stage has already reproduced a violation on the real code
             # (a seeded change usually breaks more than one thing) must not turn the verdict into "check broken"
